@@ -197,6 +197,7 @@ def st_origins(ctx: Ctx):
             "ops": st.lists(og.st_origin(max_index=12), min_size=1, max_size=4),
             "fresh": st.booleans(),
             "clear_registry": st.sampled_from([False, False, True]),
+            "tuple_backed": st.sampled_from([False, False, True]),
         }
     )
 
@@ -322,6 +323,12 @@ def check_origins(data: dict, lab: Labels) -> None:
     fresh = bool(data.get("fresh"))
     lab.tag_if(fresh, "distinct-equal-source-objects")
     objs = [og.build_origin(s, sources, fresh) for s in specs]
+    if data.get("tuple_backed"):
+        # a multi-origin a user built with a tuple of members (the field is a Sequence): same value
+        from pyoak.origin import MultiOrigin
+
+        objs = [MultiOrigin(origins=tuple(o.origins)) if isinstance(o, MultiOrigin) else o for o in objs]
+        lab.tag_if(any(isinstance(o, MultiOrigin) for o in objs), "tuple-backed-multi-origin-operand")
     if data.get("clear_registry"):
         # the algebra must not depend on the source registry (it is only a serialization aid)
         from pyoak.origin import Source
